@@ -27,6 +27,7 @@ var vh07Prep = map[string]func(c *vh07Ctx) error{
 		if err != nil {
 			return err
 		}
+		vhgDefuse(x)
 		if err := vh07Send(x, &txattrcreate{fid: vh07Fid(x), Name: "user.x", AttrSize: 1}, &rxattrcreate{}); err != nil {
 			return err
 		}
@@ -71,15 +72,17 @@ func vh07Reqs() []vh07Req {
 	return []vh07Req{
 		{"getattr", "tgetattr.handle", "GetAttr", "self", "fid", "", "", "", "any", 0, "self", none, func(c *vh07Ctx) error { _, _, _, err := c.f.GetAttr(AttrMaskAll); return err }, false},
 		{"setattr", "tsetattr.handle", "SetAttr", "self", "fid", "", "", "", "any", 0, "self", none, func(c *vh07Ctx) error { return c.f.SetAttr(SetAttrMask{Size: true}, SetAttr{Size: 1}) }, false},
-		{"clone", "twalk.handle", "Walk", "self", "fid", "", "", "", "any", -1, "self", none, func(c *vh07Ctx) error { _, _, err := c.f.Walk(nil); return err }, false},
-		{"walk", "twalk.handle", "Walk", "self", "fid", "Names[*]", "", "", "dir", -1, "self", nm("w"), func(c *vh07Ctx) error { _, _, err := c.f.Walk([]string{"w" + c.side}); return err }, false},
+		{"clone", "twalk.handle", "Walk", "self", "fid", "", "", "", "any", -1, "self", none, func(c *vh07Ctx) error { _, nf, err := c.f.Walk(nil); vhgDefuse(nf); return err }, false},
+		{"walk", "twalk.handle", "Walk", "self", "fid", "Names[*]", "", "", "dir", -1, "self", nm("w"), func(c *vh07Ctx) error { _, nf, err := c.f.Walk([]string{"w" + c.side}); vhgDefuse(nf); return err }, false},
 		{"walkgetattr", "twalkgetattr.handle", "GetAttr", "child", "fid", "Names[*]", "", "", "dir", -1, "child", nm("w"), func(c *vh07Ctx) error {
-			_, _, _, _, err := c.f.WalkGetAttr([]string{"w" + c.side})
+			_, nf, _, _, err := c.f.WalkGetAttr([]string{"w" + c.side})
+			vhgDefuse(nf)
 			return err
 		}, false},
-		{"clonegetattr", "twalkgetattr.handle", "Walk", "self", "fid", "", "", "", "any", -1, "self", none, func(c *vh07Ctx) error { _, _, _, _, err := c.f.WalkGetAttr(nil); return err }, false},
+		{"clonegetattr", "twalkgetattr.handle", "Walk", "self", "fid", "", "", "", "any", -1, "self", none, func(c *vh07Ctx) error { _, nf, _, _, err := c.f.WalkGetAttr(nil); vhgDefuse(nf); return err }, false},
 		{"walkgetattr2", "twalkgetattr.handle", "GetAttr", "child", "fid", "Names[*]", "", "", "dir2", -1, "child2", nm("w"), func(c *vh07Ctx) error {
-			_, _, _, _, err := c.f.WalkGetAttr([]string{"c", "w" + c.side})
+			_, nf, _, _, err := c.f.WalkGetAttr([]string{"c", "w" + c.side})
+			vhgDefuse(nf)
 			return err
 		}, false},
 		{"open", "tlopen.handle", "Open", "self", "fid", "", "", "", "any", -1, "self", none, func(c *vh07Ctx) error { _, _, err := c.f.Open(ReadOnly); return err }, false},
@@ -266,9 +269,11 @@ func vh07Walk(root File, path string) (File, error) {
 	}
 	if len(names) == 0 {
 		_, f, err := root.Walk(nil)
+		vhgDefuse(f)
 		return f, err
 	}
 	_, f, err := root.Walk(names)
+	vhgDefuse(f)
 	return f, err
 }
 
@@ -311,7 +316,7 @@ func vh07One(a, b *vh07Req, rel string, wait time.Duration, tries int) vh07Obs {
 			o.Kind, o.Why = "invalid", why
 			return o
 		}
-		ra, err := env.clients[0].Attach("")
+		ra, err := vhgAttach(env.clients[0])
 		if err != nil {
 			return fail("attach: " + err.Error())
 		}
@@ -319,7 +324,7 @@ func vh07One(a, b *vh07Req, rel string, wait time.Duration, tries int) vh07Obs {
 		rb := ra
 		if rel == "crossconn" || rel == "root" {
 			connB = 1
-			if rb, err = env.clients[1].Attach(""); err != nil {
+			if rb, err = vhgAttach(env.clients[1]); err != nil {
 				return fail("attach: " + err.Error())
 			}
 		}
